@@ -50,6 +50,8 @@ func (c bpCase) desc() obj {
 
 const bpHeight = 5
 
+var bpCounter int
+
 func runBpCase(out *ndjson, c bpCase) {
 	clusterIdShape = c.idShape
 	cl := newCluster(c.weights, nil, 1, false)
@@ -170,6 +172,31 @@ func runBpCase(out *ndjson, c bpCase) {
 			result = "ok"
 		}
 	}()
+	// every tenth case also goes through the public entry point of a running node (MainLoop.ValidateBlockConsensus)
+	resultMain := ""
+	bpCounter++
+	if bpCounter%10 == 0 {
+		resultMain = "err"
+		func() {
+			defer func() {
+				if r := recover(); r != nil {
+					resultMain = "panic"
+				}
+			}()
+			m := cl.newNode(1)
+			defer m.shutdown()
+			cfg := &interfaces.Config{InstanceId: clusterInstance, Communication: m, Membership: m, BlockUtils: m,
+				KeyManager: &nodeKeyManager{ring: cl.ring, me: m.id}, OverrideElectionTrigger: m}
+			ml := leanhelix.NewLeanHelix(cfg, m.onCommit, m.onNewRound)
+			ctx, cancel := context.WithCancel(context.Background())
+			w := ml.Run(ctx)
+			if ml.ValidateBlockConsensus(context.Background(), blk, proof, prevBlock, givenPrev, c.soft) == nil {
+				resultMain = "ok"
+			}
+			cancel()
+			w.WaitUntilShutdown(context.Background())
+		}()
+	}
 	ids := "ok"
 	func() {
 		defer func() {
@@ -199,7 +226,7 @@ func runBpCase(out *ndjson, c bpCase) {
 	if c.soft {
 		mode = "soft"
 	}
-	out.emit(obj{"com": coms, "w": w, "proof": pa, "blk": blkAbs, "mode": mode, "result": result, "ids": ids, "canon": canon, "wrong_epoch": cl.wrongEpochAsked, "case": c.desc()})
+	out.emit(obj{"com": coms, "w": w, "proof": pa, "blk": blkAbs, "mode": mode, "result": result, "result_main": resultMain, "ids": ids, "canon": canon, "wrong_epoch": cl.wrongEpochAsked, "case": c.desc()})
 }
 
 func cmdBlockProof(args []string) int {
